@@ -3216,6 +3216,13 @@ func _case(n *node) {
 							if stype == typ.id() {
 								return tnext
 							}
+							// A value of a source defined type may be stored without wrapper:
+							// compare the reflect types, as when a variable is bound in the guard.
+							// Not for named reflect types, which stand for themselves (int for
+							// type N int), and are matched above.
+							if rtyp := typ.TypeOf(); rtyp != nil && rtyp.Name() == "" && rtyp.String() == reflect.TypeOf(ival).String() {
+								return tnext
+							}
 						}
 						return fnext
 					}
